@@ -55,6 +55,7 @@ macro_rules! fmt_body {
 crate::harnesses! {
     /// parse_number under syntax flags F_REQ_INT == documented grammar; strings len <= 5 over {0 1 9 + - e E . a}.
     /// @prop C12 C10~
+    /// @tier thorough
     /// @feat format radix_format
     /// @bound one of 17 instantiated flag combinations; input length <= 5 over {0 1 9 + - e E . a}
     /// @fn lexical-parse-float::parse::parse_number (flag-dependent branches)
@@ -120,6 +121,7 @@ crate::harnesses! {
 
     /// parse_number under syntax flags F_NO_POS_EXP == documented grammar; strings len <= 5 over {0 1 9 + - e E . a}.
     /// @prop C12 C10~
+    /// @tier thorough
     /// @feat format radix_format
     /// @bound one of 17 instantiated flag combinations; input length <= 5 over {0 1 9 + - e E . a}
     /// @fn lexical-parse-float::parse::parse_number (flag-dependent branches)
